@@ -71,6 +71,12 @@ def step (_ : Unit) (toks : List Val) (impl : String) : Unit × Out :=
     | some s => mk (exStr (Func.foldReverse s seed accF) (fun r => withIn (toString r) s))
                   (some (withIn (toString (Spec.Func.foldReverse s seed accF)) s)) [lenTag "foldrev" s]
     | none => bad
+  | [.w "exceptnan", l, ex] =>   -- Except / ExceptSet over float64 with 7 standing for NaN: `==` never holds for a NaN, so it is never excluded
+    match l.ints?, ex.ints? with
+    | some s, some e =>
+      let r := (ofInts (s.filter (fun x => x == 7 || !(e.contains x)))).render
+      mk r (some r) ["exceptnan"]
+    | _, _ => bad
   | [.w "foldpanic", l, .i seed, .i k] =>   -- the accumulator panics on its k-th call: a panic when k ∈ 1..len, and the input untouched either way
     match l.ints? with
     | some s =>
